@@ -33,7 +33,7 @@ const creds = "Proxy-Authorization: Basic dTpw\r\n" // u:p
 
 var kindNames = []string{"ok", "denied-403", "unauthenticated-407", "dial-error", "origin-reset-mid-body", "connect-client-closes-first",
 	"connect-target-closes-first", "upgrade", "mitm-inner-request", "rejected-upstream-connect", "client-abort-uploading", "client-abort-downloading",
-	"head", "post", "connect-client-aborts-while-dialling", "upgrade-client-aborts-before-101", "client-abort-before-response"}
+	"head", "post", "connect-client-aborts-while-dialling", "upgrade-client-aborts-before-101", "client-abort-before-response", "overlapping-same-request-id"}
 
 type ledger struct {
 	totals map[string]int // "code,method" -> count; code "*" = any code
@@ -281,6 +281,36 @@ func (s *st) exchange(kind string, c *world.Peer) *world.Peer {
 		world.Settle(5 * time.Second)
 		s.led.any["GET"]++
 		return nil
+	case "overlapping-same-request-id":
+		// two exchanges on two connections overlap in time and carry the same X-Request-Id (the header is the
+		// client's to choose): each is still reported complete exactly once
+		h := s.hop("ok.test:80", nil)
+		c.Send([]byte("GET http://ok.test/slow HTTP/1.1\r\nHost: ok.test\r\nX-Request-Id: dup-1\r\n" + creds + "\r\n"))
+		msgs, conns, _ := h.Next()
+		if len(msgs) != 1 {
+			x.Failf("harness/exchange", "%s: first request not forwarded: %q", kind, world.Clip(c.Recv()))
+			return nil
+		}
+		c2 := s.client()
+		if c2 == nil {
+			return nil
+		}
+		c2.Send([]byte("GET http://ok.test/fast HTTP/1.1\r\nHost: ok.test\r\nX-Request-Id: dup-1\r\n" + creds + "\r\n"))
+		msgs2, conns2, _ := h.Next()
+		if len(msgs2) != 1 {
+			x.Failf("harness/exchange", "%s: second request not forwarded: %q", kind, world.Clip(c2.Recv()))
+			return nil
+		}
+		h.Conns[conns2[0]].Send([]byte("HTTP/1.1 200 OK\r\nContent-Length: 2\r\n\r\nok"))
+		s.sent[c2] = append(s.sent[c2], "GET")
+		expectStatus(c2, s.sent[c2], 200)
+		s.count(200, "GET")
+		s.checkMetrics("inside "+kind+" (first exchange still at its origin)", map[string]int{"GET": 1})
+		h.Conns[conns[0]].Send([]byte("HTTP/1.1 200 OK\r\nContent-Length: 2\r\n\r\nok"))
+		expectStatus(c, methods("GET"), 200)
+		s.count(200, "GET")
+		c2.Close()
+		return c
 	case "client-abort-uploading":
 		h := s.hop("ok.test:80", nil)
 		c.Send([]byte("POST http://ok.test/up HTTP/1.1\r\nHost: ok.test\r\nContent-Length: 100000\r\n" + creds + "\r\n" + string(h1x.Pattern(1000, 1))))
@@ -593,7 +623,7 @@ func apiScenario(x *explore.X) {
 
 func TestC13(t *testing.T) {
 	s := explore.NewSuite(t, "C13", "model_checking",
-		"(sequences) every sequence of 1-2 (quick) / 1-3 (thorough) exchanges over 17 kinds (ok, HEAD, POST, 403, 407, dial error, origin reset mid-body, CONNECT torn down client-first / target-first, Upgrade, MITM hand-off + inner request, rejected upstream CONNECT inside MITM, client abort while uploading / downloading / before the response, client abort while the proxy is still dialling the CONNECT target (the tunnel-establishing 200 cannot be written), client abort before the 101 of an Upgrade) on the same or a new client connection, against one proxy configured with basic auth, deny-domains, mitm-domains and a PAC-selected upstream; states = quiescent points between exchanges (and inside tunnels), at each the real Prometheus registry is gathered: in-flight gauge = requests in progress, requests_total = exactly one per request read under the status sent, listener/dialer active gauges = sockets the proxy actually holds (from the simulated network), all gauges zero at the end; (api) Listener/Dialer with traffic tracking: every sequence of <= 3 operations (Write, Read, io.Copy in/out) x sizes, Observer rx/tx = bytes moved, then 1-3 Close calls: active gauge drops exactly once; (concurrent-close) 2-3 threads closing one tracked connection under a controlled scheduler, OnClose exactly once")
+		"(sequences) every sequence of 1-2 (quick) / 1-3 (thorough) exchanges over 18 kinds (two exchanges overlapping on two connections with the same X-Request-Id, ok, HEAD, POST, 403, 407, dial error, origin reset mid-body, CONNECT torn down client-first / target-first, Upgrade, MITM hand-off + inner request, rejected upstream CONNECT inside MITM, client abort while uploading / downloading / before the response, client abort while the proxy is still dialling the CONNECT target (the tunnel-establishing 200 cannot be written), client abort before the 101 of an Upgrade) on the same or a new client connection, against one proxy configured with basic auth, deny-domains, mitm-domains and a PAC-selected upstream; states = quiescent points between exchanges (and inside tunnels), at each the real Prometheus registry is gathered: in-flight gauge = requests in progress, requests_total = exactly one per request read under the status sent, listener/dialer active gauges = sockets the proxy actually holds (from the simulated network), all gauges zero at the end; (api) Listener/Dialer with traffic tracking: every sequence of <= 3 operations (Write, Read, io.Copy in/out) x sizes, Observer rx/tx = bytes moved, then 1-3 Close calls: active gauge drops exactly once; (concurrent-close) 2-3 threads closing one tracked connection under a controlled scheduler, OnClose exactly once")
 	s.Assume = []string{"simnet is the ground truth for which sockets are open", "status of a response to a client that has vanished is unknowable; for those only 'exactly one completion' is required", "(concurrent-close) conntrack's sync.Once / atomics are redirected at build time to a cooperative scheduler: all interleavings of 2-3 concurrent Close calls (and a reader) with at most 2 (quick) / 3 (thorough) preemptions"}
 	for _, tier := range []string{"quick", "thorough"} {
 		l := map[string]int{"quick": 2, "thorough": 3}[tier]
